@@ -510,3 +510,71 @@ def t7_parallel_bounds(prog):
                     r.viol('T7', '%s/missing-send/%s' % (key, need), impl_loc(imp),
                            'Task impl for %s does not require %s: Send — a task runs on another thread, so a !Send %s could cross threads in safe code' % (name, 'the system' if need == 'self' else 'its ' + need, need))
     return r
+
+
+def _anon_params(o, sysname):
+    if isinstance(o, dict):
+        if o.get('k') == 'param':
+            return {'k': 'param', 'name': 'SYS' if o.get('name') == sysname else o.get('name')}
+        return {k: _anon_params(v, sysname) for k, v in o.items() if k != 'idx'}
+    if isinstance(o, list):
+        return [_anon_params(x, sysname) for x in o]
+    return o
+
+
+def _norm_sys(o, sysname=None):
+    """Render a type/predicate tree with ParSystem renamed to System and the system type parameter renamed
+    to a canonical name (sibling normalisation)."""
+    s = json.dumps(_anon_params(strip_regions(o), sysname), sort_keys=True)
+    s = s.replace('ContainsParQuery', 'ContainsQuery').replace('contains::par_query', 'contains::query')
+    s = s.replace('system::schedule::task::ParSystem', 'system::schedule::task::System')
+    s = s.replace('system::par::ParSystem', 'system::System').replace('system::ParSystem', 'system::System')
+    s = s.replace('"ParSystem"', '"System"')
+    return s
+
+
+@rule('T10', props=['C07', 'C08', 'C12', 'C14'], floor=2, configs=('all',))
+def t10_system_parsystem_siblings(prog):
+    """Every trait implemented both for a `task::System<T>` cell and for a `task::ParSystem<T>` cell (Stager,
+    Scheduler, Task, ...) has sibling impls: modulo the System/ParSystem renaming the two impls must carry
+    the same predicates and the same associated types (what a task claims, how it is staged and which
+    bounds it needs do not depend on whether its iterator is parallel)."""
+    r = Result()
+    by_trait = {}
+    for imp in prog.facts['impls']:
+        if not imp['trait']:
+            continue
+        st = imp['self']
+        head = st['e'][0] if st.get('k') == 'tuple' and st['e'] else st
+        if head.get('k') == 'ref':
+            head = head['t']
+        if head.get('k') == 'adt' and head['path'] in ('system::schedule::task::System', 'system::schedule::task::ParSystem'):
+            sysname = head['args'][0]['name'] if head['args'] and head['args'][0].get('k') == 'param' else None
+            by_trait.setdefault(imp['trait']['path'], {}).setdefault(head['path'].split('::')[-1], []).append((imp, sysname))
+    for tp, d in sorted(by_trait.items()):
+        if 'System' not in d or 'ParSystem' not in d or len(d['System']) != 1 or len(d['ParSystem']) != 1:
+            if ('System' in d) != ('ParSystem' in d):
+                r.viol('T10', tp + '/missing-sibling', '-', 'trait %s is implemented for only one of task::System / task::ParSystem' % tp)
+            continue
+        (a, na), (b, nb) = d['System'][0], d['ParSystem'][0]
+        r.inst('%s: System vs ParSystem impl' % tp)
+        pa = sorted(_norm_sys(p, na) for p in a['predicates'])
+        pb = sorted(_norm_sys(p, nb) for p in b['predicates'])
+        # the iterator kind legitimately differs: drop predicates that only mention the Iterator / ParallelIterator traits
+        def keep(s):
+            return 'ParallelIterator' not in s and 'core::iter' not in s
+        pa = [x for x in pa if keep(x)]
+        pb = [x for x in pb if keep(x)]
+        if pa != pb:
+            only_a = [x for x in pa if x not in pb]
+            only_b = [x for x in pb if x not in pa]
+            r.viol('T10', tp + '/predicates-differ', impl_loc(b),
+                   'sibling impls of %s for System and ParSystem carry different bounds (%d only on System, %d only on ParSystem): e.g. %s' % (tp.split('::')[-1], len(only_a), len(only_b), (only_a or only_b)[0][:300]))
+        ta = {it['name']: _norm_sys(it.get('ty'), na) for it in a['items'] if it['kind'] == 'AssocTy'}
+        tb = {it['name']: _norm_sys(it.get('ty'), nb) for it in b['items'] if it['kind'] == 'AssocTy'}
+        for k in sorted(set(ta) | set(tb)):
+            if ta.get(k) != tb.get(k):
+                r.viol('T10', tp + '/assoc-type-differs/' + k, impl_loc(b), 'associated type %s of %s differs between the System and the ParSystem impl' % (k, tp.split('::')[-1]))
+        if _norm_sys(a['trait']['args'][1:], na) != _norm_sys(b['trait']['args'][1:], nb):
+            r.viol('T10', tp + '/trait-args-differ', impl_loc(b), 'trait arguments of the sibling impls differ')
+    return r
